@@ -187,8 +187,16 @@ def gen(ctx, todo_cells):
 
 def run(ctx):
     d = core.case_dir('C08')
-    todo = set(ctx.gen_info.get('fsm', {}).get('todo_cells', []))
-    cases = gen(ctx, todo)
+    # the todo!() cells of the known finding K4 are the ones listed in known_findings.json, not whatever the source says now:
+    # a todo!() cell that is not listed is a violation, and the list is available even when the translator fails
+    todo = set()
+    for kf in ctx.known:
+        if kf.get('id') == 'K4':
+            todo = set(kf.get('cells', []))
+    now = set(ctx.gen_info.get('fsm', {}).get('todo_cells', todo))
+    for cell in sorted(now - todo):
+        ctx.violation('a todo!() cell that is not part of the known finding K4: %s' % cell, case=cell)
+    cases = gen(ctx, todo | now)
     lines = []
     for i, c in enumerate(cases):
         steps = list(c.get('pre', [])) + [s for s, _, _ in c['steps']]
